@@ -1151,7 +1151,10 @@ pub fn run_c15(ctx: &mut Ctx, scn: &NetScn, seed: u64) {
                 return false;
             }
             c.queue_req(&Req::Get(0));
+            // a connection that is admitted is answered at once; 30 simulated seconds is forever
+            c.deadline = Some(simrt::sched::now_ns() + 30_000_000_000);
             c.pump(&|c: &Cli| c.unanswered() == 0 || c.eof || c.reset);
+            c.deadline = None;
             if c.replies != 1 {
                 return false;
             }
